@@ -58,6 +58,8 @@ def run_job(job, tier, seed, outdir):
         cmd += ["--jobs", str(job["jobs"])]
     if seed:
         cmd += ["--seed", str(seed)]
+    if job.get("xproc"):
+        cmd += ["--witnesses", str(job["xproc"])]
     t0 = time.time()
     try:
         r = subprocess.run(cmd, cwd=ROOT, env=env(), capture_output=True, text=True, timeout=job.get("secs", 60) * 2 + 120)
@@ -70,7 +72,35 @@ def run_job(job, tier, seed, outdir):
             res = json.load(open(out))
         except Exception as ex:  # noqa
             err = "bad json: %s" % ex
-    return dict(job=job, rc=rc, err=err, res=res, wall=time.time() - t0)
+    xp = None
+    if res is not None and job.get("xproc") and res["report"].get("witnesses"):
+        xp = cross_process(job, res["report"]["witnesses"], outdir, tag)
+    return dict(job=job, rc=rc, err=err, res=res, wall=time.time() - t0, xproc=xp)
+
+
+def cross_process(job, witnesses, outdir, tag):
+    """re-execute the path witnesses natively (f64) in fresh processes - fresh per-process SipHash keys -
+    under rayon pools of 1 and 8 threads; outputs must equal the exploration's shadow outputs bit for bit"""
+    inp = os.path.join(outdir, "wit-%s.json" % tag)
+    json.dump([w[0] for w in witnesses], open(inp, "w"))
+    want = [w[1] for w in witnesses]
+    bad, runs = [], 0
+    for threads in (1, 8, 3):
+        e = env()
+        e["RAYON_NUM_THREADS"] = str(threads)
+        cmd = [HS, "observe", job["h"], inp] + ["%s=%s" % (k, v) for k, v in sorted(job.get("p", {}).items())]
+        try:
+            r = subprocess.run(cmd, cwd=ROOT, env=e, capture_output=True, text=True, timeout=300)
+            got = json.loads(r.stdout.strip().splitlines()[-1])
+        except Exception as ex:  # noqa
+            bad.append(dict(threads=threads, error=str(ex)[:200]))
+            continue
+        runs += 1
+        for i, (g, w) in enumerate(zip(got, want)):
+            if g != w:
+                bad.append(dict(threads=threads, inputs=witnesses[i][0], got=g, want=w))
+                break
+    return dict(witnesses=len(witnesses), processes=runs, mismatches=bad)
 
 
 def schedule(jobs, tier, seed, outdir):
@@ -165,6 +195,7 @@ def main():
                concretised=0, inexact=0, exact_terms=0, rounded_terms=0, uf_terms=0, rounded_compares=0, uf_compares=0, signed_zero=0,
                div0_paths=0, sqrt_neg_paths=0, unsupported_paths=0, assume_rejected_runs=0, diverged_runs=0, runs=0, pending_work=0, unrealised_flips=0)
     per_h, functions, locations, samples, assumptions = [], set(), set(), [], set()
+    agg_x = dict(witnesses=0, processes=0)
     all_exh = True
     for r in results:
         job = r["job"]
@@ -202,6 +233,16 @@ def main():
             inconclusive.append("%s: %d paths divide by a symbolic zero (harness must assume it away or expect it)" % (label, rep["div0_paths"]))
         if rep["sqrt_neg_paths"] and "sqrtneg" not in allow:
             inconclusive.append("%s: %d paths take the square root of a negative term" % (label, rep["sqrt_neg_paths"]))
+        xp = r.get("xproc")
+        if xp:
+            agg_x["witnesses"] += xp["witnesses"]
+            agg_x["processes"] += xp["processes"]
+            for b in xp["mismatches"]:
+                if "error" in b:
+                    inconclusive.append("%s: cross-process replay failed: %s" % (label, b["error"]))
+                else:
+                    viol.append((dict(check="outputs bit-identical in a fresh process (RAYON_NUM_THREADS=%d)" % b["threads"], inputs=b["inputs"], input_names=[d.split(" in ")[0] for d in rep.get("var_domains", [])],
+                                      message="native outputs %s differ from %s" % (b["got"][:6], b["want"][:6]), found_by="cross-process replay of a path witness"), job))
         for c in rep["unconfirmed_candidates"]:
             inconclusive.append("%s: counterexample candidate for '%s' did not reproduce natively (inputs %s)" % (label, c["check"], c["inputs"]))
         for v in rep["violations"]:
@@ -260,6 +301,7 @@ def main():
             excluded_paths=dict(assume_rejected_runs=agg["assume_rejected_runs"], div_by_zero=agg["div0_paths"], sqrt_negative=agg["sqrt_neg_paths"]),
             pending_work_items=agg["pending_work"], diverged_runs=agg["diverged_runs"],
             harnesses=per_h, known_findings_seen=sorted(seen_known), inconclusive=inconclusive[:10],
+            cross_process_replays=dict(path_witnesses=agg_x["witnesses"], fresh_processes=agg_x["processes"], note="native f64 re-execution of path witnesses in fresh processes (new SipHash keys) under rayon pools of 1, 8 and 3 threads; outputs compared bit for bit with the exploration's"),
         ),
         assumptions=sorted(assumptions) + ["bounded: shapes, input grid and budgets as listed per harness; outside them nothing is claimed",
                                            "exact terms are proved < 2^53 by interval analysis so real arithmetic = IEEE f64 on the grid; rounded/uninterpreted terms are counted above",
